@@ -319,9 +319,20 @@ fn shipped_lane(ctx: &mut Ctx, idx: u64) {
     let kind = &KINDS[k];
     let pairs = typed::gen_pairs(&mut r, k);
     let keys: Vec<(&str, bool)> = kind.fields.iter().map(|f| (f.name, f.mandatory)).collect();
+    // the paragraphs are assembled from the pairs, or read by the two readers from one text in which list-valued
+    // fields may start on the line after the name (the layout such fields have in real files)
+    let from_text = (idx / KINDS.len() as u64) % 3 == 1 && !pairs.is_empty();
+    let mut text = String::new();
+    if from_text {
+        super::c20::write_para(&mut r, &pairs, false, &mut text);
+        ctx.count(if text.contains(":\n ") { "paragraphs:read-from-text:next-line-layout" } else { "paragraphs:read-from-text" });
+    }
     let built = guard(8192, || {
-        let pl: lossy::Paragraph = pairs.iter().cloned().collect();
-        let pll: Paragraph = pairs.iter().cloned().collect();
+        let (pl, pll): (lossy::Paragraph, Paragraph) = if from_text {
+            (lossy::Paragraph::from_str(&text).expect("lossy reader"), Paragraph::from_str(&text).expect("lossless reader"))
+        } else {
+            (pairs.iter().cloned().collect(), pairs.iter().cloned().collect())
+        };
         (typed::from_paragraph(k, Some(&pl), None), typed::from_paragraph(k, None, Some(&pll)))
     });
     let (vl, vll) = match built {
